@@ -1391,7 +1391,10 @@ class Sim(object):
         self.on_send_hooks = []
         self.on_deliver_hooks = []
         import gc
-        gc.collect()
+        gc.collect(1)       # the young generations hold this case's objects; a full collection per case is too slow
+        Sim._destroyed = getattr(Sim, '_destroyed', 0) + 1
+        if Sim._destroyed % 50 == 0:
+            gc.collect()
 
     def summary(self):
         return {
